@@ -11,7 +11,7 @@ use crate::sut::{self, Entry, Verdict};
 use crate::util::J;
 use lzma_rs::decompress::UnpackedSize;
 
-const API: [&str; 3] = ["one-shot", "stream", "raw decoder"];
+const API: [&str; 4] = ["one-shot", "stream", "raw decoder", "raw decoder (earlier call + reset on the same object)"];
 const LIMITS: [&str; 14] = ["0", "1", "need-1", "need", "need+1", "dict-1", "dict", "dict+1", "usize::MAX", "random", "2^32", "2^32+1", "header dict field - 1", "header dict field"];
 
 struct Run {
@@ -30,8 +30,26 @@ fn run(api: usize, file: &[u8], payload_at: usize, props: Props, dict: u32, len:
     let verdict = match api {
         0 => sut::decode(Entry::Lzma, file, &sut::opts(us, memlimit, false), ReaderKind::Slice, &sink, &obs).verdict,
         1 => streamdrv::drive(file, &sut::opts(us, memlimit, false), cuts, &DriveOpts::default(), &sink, &obs).verdict,
-        _ => match sut::raw_lzma_new(props.lc, props.lp, props.pb, dict, Some(len), memlimit) {
+        2 => match sut::raw_lzma_new(props.lc, props.lp, props.pb, dict, Some(len), memlimit) {
             Ok(mut d) => sut::raw_lzma_decompress(&mut d, &file[payload_at..], ReaderKind::Slice, &sink, &obs).verdict,
+            Err(v) => v,
+        },
+        _ => match sut::raw_lzma_new(props.lc, props.lp, props.pb, dict, Some(len), memlimit) {
+            Ok(mut d) => {
+                // an earlier call on the same object (complete, or cut short so that it fails),
+                // then reset: the limit given at construction must still be in force
+                let payload = &file[payload_at..];
+                let k = (memlimit.unwrap_or(7) as u64 ^ len) % 3 + 1;
+                let warm = &payload[..payload.len() * k as usize / 3];
+                let _ = sut::raw_lzma_decompress(&mut d, warm, ReaderKind::Slice, &SharedSink::counting_only(), &sut::new_obs(u64::MAX));
+                match sut::guarded(|| d.reset(Some(Some(len)))) {
+                    Ok(()) => {
+                        crate::alloc::reset();
+                        sut::raw_lzma_decompress(&mut d, payload, ReaderKind::Slice, &sink, &obs).verdict
+                    }
+                    Err(v) => v,
+                }
+            }
             Err(v) => v,
         },
     };
@@ -46,8 +64,8 @@ fn fam_limits(ctx: &CaseCtx, cov: &mut Cov) -> CaseOut {
     let props = if rng.chance(1, 2) { Props::new(3, 0, 2) } else { Props::new(rng.below(5) as u32, rng.below(3) as u32, rng.below(5) as u32) };
     // header values below 4096 behave as 4096 (the raw decoder takes them literally)
     let dict_field: u32 = *rng.pick(&[4096u32, 4096, 8192, 1 << 16, 1 << 20, 0, 1, 100, 4095, 4097, 5000]);
-    let api = rng.usize_below(3);
-    let dict: u32 = if api == 2 { dict_field.max(1) } else { dict_field.max(4096) };
+    let api = rng.usize_below(4);
+    let dict: u32 = if api >= 2 { dict_field.max(1) } else { dict_field.max(4096) };
     let d = dict as u64;
     // output length: 0 .. 3 * dict, with emphasis on the wrap point
     let target: u64 = match rng.below(8) {
@@ -183,7 +201,7 @@ fn label(group: &str, i: u32) -> String {
 
 fn floors(_: Tier, cov: &Cov) -> Vec<String> {
     let mut m = Vec::new();
-    if cov.group_nonzero("api") < 3 || cov.group_nonzero("limit") < 14 || cov.group_nonzero("limit_sufficient") < 3 || cov.group_nonzero("limit_too_small") < 3 {
+    if cov.group_nonzero("api") < 4 || cov.group_nonzero("limit") < 14 || cov.group_nonzero("limit_sufficient") < 4 || cov.group_nonzero("limit_too_small") < 4 {
         m.push("api x limit grid incomplete".into());
     }
     m
@@ -193,7 +211,7 @@ pub fn monitor(tier: Tier) -> Monitor {
     Monitor {
         id: "C10",
         level: "exploration",
-        rule: "per valid stream (header dictionary field 0 / 1 / 100 / 4095 / 4096 / 4097 / 5000 / 8192 / 64 KiB / 1 MiB - values below 4096 act as 4096 except in the raw decoder -, output 0 .. 3 x dict with emphasis on the wrap point) an unlimited run measures the window actually needed (WinGrow hook), then limits {0, 1, need-1, need, need+1, dict-1, dict, dict+1, usize::MAX, random, 2^32, 2^32+1, header field - 1, header field} are applied through the one-shot API, Stream (random chunking) and the raw decoder: m >= need must reproduce the unlimited result, m < need must fail, and the WinGrow hook must never report a buffer above m; a quarter of the runs use a non-storing sink and the counting allocator as a coarse second witness; distinct by hash of (file, api, limit)",
+        rule: "per valid stream (header dictionary field 0 / 1 / 100 / 4095 / 4096 / 4097 / 5000 / 8192 / 64 KiB / 1 MiB - values below 4096 act as 4096 except in the raw decoder -, output 0 .. 3 x dict with emphasis on the wrap point) an unlimited run measures the window actually needed (WinGrow hook), then limits {0, 1, need-1, need, need+1, dict-1, dict, dict+1, usize::MAX, random, 2^32, 2^32+1, header field - 1, header field} are applied through the one-shot API, Stream (random chunking), the raw decoder, and a raw decoder object that already served an earlier (complete or failing) call and was reset: m >= need must reproduce the unlimited result, m < need must fail, and the WinGrow hook must never report a buffer above m; a quarter of the runs use a non-storing sink and the counting allocator as a coarse second witness; distinct by hash of (file, api, limit)",
         assumptions: vec![
             "need = the largest window length reported by the hook in the unlimited run; a warning is recorded if it differs from min(dict, produced)".into(),
             "allocator bound is deliberately loose (3 x limit + literal table + 1 MiB): Vec growth doubles".into(),
